@@ -1,0 +1,8 @@
+//go:build verif
+
+package ztp
+
+// Verification hook for property C09. Wrapper only (-tags verif).
+
+// VerifC09ParseVendorOptions exposes parseVendorOptions (DHCP option 43 payload).
+func VerifC09ParseVendorOptions(data []byte) string { return parseVendorOptions(data) }
